@@ -86,6 +86,13 @@ pub struct ExchCfg {
     pub req_chunked: bool,
     /// explore from this flow state on (reached along the canonical schedule) instead of SendRequest
     pub start_at: Option<&'static str>,
+    /// which oracle failures belong to the property this exchange is explored for (key without the
+    /// property prefix); anything else makes the check UNDECIDED instead of raising its alarm
+    pub scope: fn(&str) -> bool,
+}
+
+pub fn scope_all(_k: &str) -> bool {
+    true
 }
 
 impl ExchCfg {
@@ -112,7 +119,7 @@ impl ExchCfg {
         let eff_has = |name: &str| req.added.iter().chain(req.orig.iter()).any(|(k, _)| k.eq_ignore_ascii_case(name));
         let te_chunked = req.added.iter().chain(req.orig.iter()).any(|(k, v)| k.eq_ignore_ascii_case("transfer-encoding") && v.eq_ignore_ascii_case(b"chunked"));
         let req_chunked = te_chunked || !eff_has("content-length");
-        Ok(ExchCfg { prop, req, body, server, trailing, menu, stream, layout, ref_head, req_chunked, start_at: None })
+        Ok(ExchCfg { prop, req, body, server, trailing, menu, stream, layout, ref_head, req_chunked, start_at: None, scope: scope_all })
     }
 
     pub fn to_json(&self) -> Value {
